@@ -15,6 +15,7 @@ OBLIGATIONS = [
     "Pkgcore.C21.cfg_number_fresh_or_reused",
     "Pkgcore.C21.install_trigger_sound",
     "Pkgcore.C21.protected_never_overwritten",
+    "Pkgcore.C21.update_written_beside",
     "Pkgcore.C21.uninstall_keeps_modified",
     "Pkgcore.C21.uninstall_removes_the_rest",
 ]
@@ -34,8 +35,9 @@ ASSUMPTIONS = [
     "the incoming entry for a protected file is a regular file (a symlink or directory arriving over a protected file is outside the property's 'incoming file')",
     "pending updates are named ._cfgNNNN_<name> with four ASCII digits (Python's int() would also accept '+001', ' 001', '0_01' in that slot; not generated)",
     "at unmerge time only env.d settings protect (ConfigProtectUninstall is constructed without the domain's extra CONFIG_PROTECT entries, as in GenerateTriggers)",
-    "offset '/' cannot be merged into inside the sandbox: root-offset cases run the pre_merge / pre_unmerge decision on read-only system files and compare the csets, "
-    "non-root offsets run the complete engine on a scratch root",
+    "offset '/' cannot be merged into inside the sandbox: for the root offset only the two filters are compared (read-only, on the sandbox's own /etc/env.d); "
+    "complete engine runs use scratch roots with plain and unnormalised offsets. The theorems hold for every offset",
+    "the package ships no ._cfgNNNN_ files and its entries have distinct locations (update_written_beside); pending update numbers stay below 9999",
 ]
 RULE = ("random scratch roots: env.d files (several, with skipped names) setting CONFIG_PROTECT / CONFIG_PROTECT_MASK / COLLISION_IGNORE (globs, directory entries, "
         "suffix-lookalikes), live config files, pending ._cfgNNNN_ updates (identical, different, gaps, malformed names), package images with identical and differing "
@@ -122,7 +124,7 @@ def gen_case(rng):
             other = rng.choice([b, b, b, "zzz"])
             live.setdefault(f"{d}/._cfg{num}{sep}{other}", rng.choice([c, c, rng.choice(CONTENTS)]))
     # directories named by COLLISION_IGNORE entries
-    live_dirs = [x.rstrip("/") for x in ignores if rng.random() < 0.6 and x.startswith("/") and "*" not in x and "?" not in x and not any(l == x.rstrip("/") for l in live)]
+    live_dirs = [x.rstrip("/") for x in ignores if rng.random() < 0.6 and x.startswith("/") and "*" not in x and "?" not in x and not any(l == x.rstrip("/") for l in list(live) + list(image) + list(old))]   # never a directory where a file lives or arrives
     return {"mode": mode, "envd": envd, "extra_protects": extra_protects, "extra_masks": extra_masks, "live": live, "live_dirs": live_dirs,
             "image": image, "old": old, "offset_style": rng.choice(["plain", "plain", "plain", "trailing", "dotted", "double"]),
             "plugins": rng.random() < 0.03}
@@ -491,6 +493,22 @@ def filter_differential(ctx, etriggers, scratch):
         batch.append(({"cmd": "c21.filters", "offset": offset, "protects": prot, "masks": mask, "ignores": ign, "dirs": sorted(root + d for d in alld) + [root], "locs": locs},
                       (style, prot, mask, ign, dirs, sorted(alld), root, locs, impl)))
         shutil.rmtree(base, ignore_errors=True)
+    # offset "/" (read-only): whatever the real /etc/env.d says, on a fixed list of paths
+    try:
+        cd, _i, _c = etriggers.collapse_envd("/etc/env.d")
+        prot, mask = list(cd.get("CONFIG_PROTECT", [])), list(cd.get("CONFIG_PROTECT_MASK", []))
+        ign = cd.get("COLLISION_IGNORE", [])
+        ign = ign.split() if isinstance(ign, str) else list(ign)
+        locs = ["/etc/passwd", "/etc/env.d/00basic", "/usr/bin/env", "/etc", "/etcetera/x", "/etc/.keep", "/usr/share/.keep_x-0", "/opt/cfg/a", "/", "/etc/app/._cfg0000_x"]
+        pf = etriggers.gen_config_protect_filter("/").match
+        igf = etriggers.gen_collision_ignore_filter("/").match
+        impl = [[bool(pf(l)), bool(igf(l))] for l in locs]
+        isd = [l.rstrip("/") for l in ign if l.startswith("/") and os.path.isdir(l)]
+        batch.append(({"cmd": "c21.filters", "offset": "/", "protects": prot, "masks": mask, "ignores": ign, "dirs": isd, "locs": locs},
+                      ("root", prot, mask, ign, isd, isd, "", locs, impl)))
+        ctx.count("root_offset_filter_check")
+    except Exception as e:
+        ctx.violation({"offset": "/"}, f"building the filters for the root offset raised {type(e).__name__}: {e}")
     for (req, (style, prot, mask, ign, dirs, alld, root, locs, impl)), rep in zip(batch, ctx.model([b[0] for b in batch])):
         # the property's own reading, on root-relative paths
         orc_case = {"envd": [{"name": "50x", "vars": {"CONFIG_PROTECT": prot, "CONFIG_PROTECT_MASK": mask, "COLLISION_IGNORE": ign}}], "extra_protects": [], "extra_masks": [],
@@ -532,6 +550,13 @@ def run(ctx):
         cases = [c for c in ctx.replay_cases if "envd" in c] + cases
     for _ in range(ctx.n(500, 8000)):
         cases.append(gen_case(rng))
+    # runs with the engine's default plugins spawn ldconfig and are slow: keep a bounded number of them
+    budget = ctx.n(8, 60)
+    for c in cases:
+        if c["plugins"]:
+            if budget <= 0:
+                c["plugins"] = False
+            budget -= 1
     scratch = tempfile.mkdtemp(prefix="verif-c21-", dir="/dev/shm" if os.access("/dev/shm", os.W_OK) else None)
     # hash with the two handlers a vdb CONTENTS file records (md5 + size): with the full handler set snakeoil starts ten threads per file
     from snakeoil import chksum
@@ -626,5 +651,16 @@ def run(ctx):
         shutil.rmtree(scratch, ignore_errors=True)
 
 
-LEVEL_TEXT = "(being built)"
-LEVEL_NOTE = ""
+LEVEL_TEXT = ("Kernel-checked Lean 4 theorems about a model of gen_config_protect_filter, gen_collision_ignore_filter, ConfigProtectInstall and "
+              "ConfigProtectUninstall (merge/unmerge abstracted): the protect filter is 'below some CONFIG_PROTECT entry taken under the offset, below no "
+              "CONFIG_PROTECT_MASK entry', component-wise; the glob matcher accepts exactly the denoted strings and absolute patterns are matched root-relative "
+              "under any offset; ._cfgNNNN_ names and (number, file) pairs correspond one to one; the number given is that of an identical pending update or "
+              "exceeds all; for every package, live tree, settings and offset a protected live file holds its old content after trigger + merge "
+              "(protected_never_overwritten) and the incoming file is found beside it under that name; unmerge keeps exactly the protected files whose content "
+              "differs from the recorded one. The model is tied to the code by complete install / replace / uninstall runs of the real MergeEngine with the ebuild "
+              "triggers on scratch roots (env.d files, pending updates, globs, directory entries, unnormalised offsets), whose resulting trees and recorded "
+              "contents are compared with the model and judged by an oracle written from the property text, plus differential tests of both filters and of the "
+              "name parser.")
+LEVEL_NOTE = ("Partial: the clause 'the recorded contents keep the real name' (ConfigProtectInstall_restore) is modelled and compared on every sampled run but not "
+              "proved; merge/unmerge are abstracted (C18/C20); env.d parsing, checksums, fnmatch bracket classes and int() on exotic digit strings are trusted / "
+              "not generated; offset '/' is exercised for the filters only.")
